@@ -102,8 +102,66 @@ def plan_and_modes(draw):
 # ---- decidability of the converse clause ---------------------------------------------------------------------
 
 
+EXPLICIT_SCHEMAS = [({"type": "integer", "minimum": 1, "maximum": 9}, 5), ({"type": "integer", "enum": [2, 4]}, 2), ({"type": "boolean"}, True), ({"type": "integer", "multipleOf": 5}, 10), ({"type": "string", "enum": ["a", "b"]}, "a"), ({"type": "string", "minLength": 3, "maxLength": 5}, "abcd")]
+
+
+@st.composite
+def explicit_plan(draw):
+    """Operations with 3-5 parameters in one location, two or more of which get explicit (valid) values through
+    ``as_strategy(query=... / headers=... / cookies=...)``, in any order; at least one declared parameter stays generated."""
+    loc, kwarg = draw(st.sampled_from([("query", "query"), ("header", "headers"), ("cookie", "cookies")]))
+    n = draw(st.integers(3, 5))
+    params = []
+    for i in range(n):
+        sch, wit = draw(st.sampled_from(EXPLICIT_SCHEMAS))
+        params.append({"name": f"p{i}" if loc != "header" else f"X-P{i}", "in": loc, "required": draw(st.booleans()), "schema": dict(sch), "witness": wit, "level": "operation", "ref": False})
+    if not any(p["schema"]["type"] != "string" or "enum" in p["schema"] or "minLength" in p["schema"] for p in params):
+        params[0]["schema"], params[0]["witness"] = {"type": "integer", "minimum": 1, "maximum": 9}, 5
+    k = draw(st.integers(2, n - 1))
+    chosen = draw(st.permutations(params))[:k]
+    values = {p["name"]: (p["witness"] if loc == "query" else c01_text(p["witness"])) for p in chosen}
+    if loc == "header" and draw(st.booleans()):
+        values = dict([("X-Undeclared", "zz")] + list(values.items())) if draw(st.booleans()) else dict(list(values.items()) + [("X-Undeclared", "zz")])
+    plan = {"dialect": draw(st.sampled_from(["3.0", "3.1"])), "method": "post", "path": "/t", "params": params, "bodies": [], "body_required": True, "schemas": {}, "security": None, "access": "lookup"}
+    return {"plan": plan, "modes": draw(st.sampled_from([["negative"], ["positive", "negative"]])), "explicit": {kwarg: values}, "draws": 20}
+
+
+def c01_text(v) -> str:
+    return "true" if v is True else "false" if v is False else str(v)
+
+
 def _is_plain_string(schema) -> bool:
     return isinstance(schema, dict) and set(schema) <= {"type"} and schema.get("type") == "string"
+
+
+def practical_blockers(plan, operation, cfg, seed_value) -> set:
+    """Locations that admit no negative value on their own (everything else pinned to its witness)."""
+    from schemathesis.generation import GenerationMode
+
+    kw = {"query": "query", "header": "headers", "cookie": "cookies", "path": "path_parameters"}
+    present = sorted({p["in"] for p in effective_params(plan)}) + (["body"] if plan["bodies"] else [])
+    out = set()
+    for loc in present:
+        explicit: dict = {}
+        for p in effective_params(plan):
+            if p["in"] != loc:
+                w = p.get("witness")
+                explicit.setdefault(kw[p["in"]], {})[p["name"]] = w if p["in"] == "query" else c01_text(w)
+        if loc != "body" and plan["bodies"]:
+            explicit["body"] = plan["bodies"][0]["witness"]
+            explicit["media_type"] = plan["bodies"][0]["media_type"]
+        try:
+            cases, outcome = c01.draw_cases(operation, GenerationMode.NEGATIVE, cfg, 4, seed_value, explicit=explicit, suppress_all=True)
+        except Exception:  # noqa: BLE001
+            continue
+        if not cases and outcome == "unsatisfiable":  # "skip" is the correct answer of a location that falls back to positive data
+            out.add(loc)
+    return out
+
+
+def _unconstrained_string(schema) -> bool:
+    """A string schema without any validation keyword (annotations such as example / description / default do not constrain)."""
+    return isinstance(schema, dict) and schema.get("type") == "string" and set(schema) <= {"type", "example", "examples", "description", "default", "title", "deprecated", "x-example"}
 
 
 def _clearly_violable_param(p) -> bool:
@@ -204,14 +262,20 @@ def check_negative(ctx: Ctx, inp) -> None:
         ctx.case(classes=["load-error"])
         ctx.disagree("load-error:" + type(exc).__name__, f"a well-formed generated document failed to load: {exc!r}"[:400], input=inp)
         return
-    cases, outcome = c01.draw_cases(operation, GenerationMode.NEGATIVE, cfg, inp.get("draws", 12), derive_seed("c02", h(inp)))
-    expectation = converse_expectation(plan)
+    explicit = inp.get("explicit") or {}
+    cases, outcome = c01.draw_cases(operation, GenerationMode.NEGATIVE, cfg, inp.get("draws", 12), derive_seed("c02", h(inp)), explicit={k: dict(v) for k, v in explicit.items()})
+    expectation = converse_expectation(plan) if not explicit else "explicit"
     violable = expectation != "skip"
     classes = [f"dialect={dialect}", f"modes={'+'.join(mode_names)}", f"converse={expectation}", f"outcome={outcome.split(':')[0]}"] + [f"loc={p['in']}" for p in plan["params"]] + (["body"] if plan["bodies"] else [])
     if plan.get("shape"):
         classes.append(f"shape={plan['shape']}")
     ctx.case(nontrivial=[inp, "converse"] if violable else None, classes=classes, sample={"plan": plan, "modes": mode_names, "outcome": outcome, "cases": len(cases)})
     # ---- (e) converse -----------------------------------------------------------------------------------------
+    if outcome.startswith("healthcheck") and expectation == "cases" and mode_names == ["negative"] and not cases:
+        # "filters out a lot of inputs" is what the user is told, too; whether anything can be generated at all is
+        # decided by drawing again without the health checks
+        cases, outcome = c01.draw_cases(operation, GenerationMode.NEGATIVE, cfg, inp.get("draws", 12), derive_seed("c02", h(inp)), suppress_all=True)
+        ctx.classes["converse:redrawn-without-health-checks"] += 1
     if outcome.startswith("healthcheck") or outcome == "timeout":
         ctx.inconclusive_case("health check / time budget during negative generation")
     elif outcome.startswith("error:"):
@@ -221,6 +285,16 @@ def check_negative(ctx: Ctx, inp) -> None:
         ctx.disagree(sig, f"negative generation ended in an error instead of cases or a skip: {outcome}", input=inp)
     elif expectation == "cases" and (outcome in ("skip", "unsatisfiable") or not cases) and mode_names == ["negative"]:
         where = "+".join(sorted({p["in"] for p in plan["params"]} | ({"body"} if plan["bodies"] else set())))
+        if outcome == "unsatisfiable":
+            # which location is it? pin every other location to its witness and see whether this one alone can be negated
+            blockers = practical_blockers(plan, operation, cfg, derive_seed("c02b", h(inp)))
+            syntactic = sorted(loc for loc in blockers if loc in ("path", "header", "cookie") and all(_unconstrained_string(p["schema"]) for p in effective_params(plan) if p["in"] == loc))
+            if syntactic:
+                ctx.disagree("converse:violable-input-but-unsatisfiable:unnegatable-string-" + "+".join(syntactic), f"the operation has a clearly violable input, but its {syntactic} parameters are all unconstrained strings and negative generation ends Unsatisfiable instead of falling back to positive data there (inputs in {where})", input=inp)
+                return
+            if blockers:
+                ctx.disagree("converse:violable-input-but-unsatisfiable:a-location-that-cannot-be-negated-blocks-the-operation", f"the operation has a clearly violable input, but negative generation negates every location at once and {sorted(blockers)} admit(s) no negative value (nothing left to violate after stringification / form rules): Unsatisfiable instead of keeping that location positive (inputs in {where})", input=inp, blockers=sorted(blockers))
+                return
         ctx.disagree(f"converse:violable-input-but-{outcome}", f"the operation has a clearly violable input but negative generation ended with {outcome} and {len(cases)} cases (inputs in {where})", input=inp)
     elif expectation == "skip" and mode_names == ["negative"]:
         if cases:
@@ -229,9 +303,15 @@ def check_negative(ctx: Ctx, inp) -> None:
             locs = "+".join(sorted({p["in"] for p in plan["params"]}))
             ctx.disagree(f"converse:nothing-to-violate-reported-as-unsatisfiable:{locs or 'no-params'}", "no input can be violated: expected a skip, got Unsatisfiable (reported as a failure to the user)", input=inp)
     # ---- (a)-(d) per case -------------------------------------------------------------------------------------
+    container_name = {"query": "query", "headers": "header", "cookies": "cookie", "path_parameters": "path"}
     for case in cases:
         summary = c01.case_summary(case)
-        ctx.case(nontrivial=[h(inp), summary] if violable else None, classes=[f"dialect={dialect}", "case"], sample={"plan": plan, "case": summary})
+        ctx.case(nontrivial=[h(inp), summary] if violable else None, classes=[f"dialect={dialect}", "case"] + (["explicit-values"] if explicit else []), sample={"plan": plan, "case": summary, "explicit": explicit})
+        for kwarg, values in explicit.items():
+            cont = c01.container_of(case, container_name[kwarg]) or {}
+            changed = {k: (v, cont.get(k, "<absent>")) for k, v in values.items() if k not in cont or cont[k] != v}
+            if changed:
+                ctx.disagree(f"explicit-value-not-kept:{container_name[kwarg]}", f"explicit {kwarg} values were replaced or dropped (given, in the case): {changed}", input=inp, case=summary)
         meta = case.meta
         if meta is None or meta.generation.mode != GenerationMode.NEGATIVE:
             ctx.disagree("label:case-not-labelled-negative", "a case drawn from the negative strategy is not labelled negative", input=inp, case=summary)
@@ -284,6 +364,8 @@ def check_negative(ctx: Ctx, inp) -> None:
                     elif any(spells_json_literal(v) for v in present.values()):
                         # the container holds the already stringified values: `null`, `true`, `0` are valid strings
                         sig = "negative-component-valid-on-the-wire"
+                    elif any(hinges_on_draft4_reading_of_exclusive_bounds(p["schema"], cont.get(n), plan) for n, p in declared.items() if n in cont):
+                        sig = "negative-component-valid:openapi-3.1-exclusive-bound-read-with-draft4-semantics"
                     elif any(hinges_on_pattern_with_length(p["schema"], cont.get(n), plan) for n, p in declared.items() if n in cont):
                         sig = "negative-component-valid:hinges-on-pattern+length-subschema"
                     else:
@@ -308,7 +390,39 @@ def check_negative(ctx: Ctx, inp) -> None:
                         ctx.disagree("positive-component-invalid:" + c01.classify_invalid(p["schema"], c[key], dialect=dialect, root=root, loc=loc), f"{loc} parameter {p['name']!r}={c[key]!r} labelled positive does not conform", input=inp, case=summary)
 
 
+def hinges_on_draft4_reading_of_exclusive_bounds(schema, value, plan) -> bool:
+    """OpenAPI 3.1 writes exclusive bounds as numbers; read with Draft 4 (where the keyword is a flag next to minimum /
+    maximum) the same value is rejected - which is how the negative filter reads every dialect."""
+    import jsonschema
+
+    if plan["dialect"] != "3.1":
+        return False
+
+    def has_numeric_exclusive(node, depth=0):
+        if depth > 8:
+            return False
+        if isinstance(node, dict):
+            if "$ref" in node and isinstance(node["$ref"], str):
+                return has_numeric_exclusive(plan["schemas"].get(node["$ref"].rsplit("/", 1)[1], {}), depth + 1)
+            if any(isinstance(node.get(k), (int, float)) and not isinstance(node.get(k), bool) for k in ("exclusiveMinimum", "exclusiveMaximum")):
+                return True
+            return any(has_numeric_exclusive(v, depth + 1) for v in node.values())
+        if isinstance(node, list):
+            return any(has_numeric_exclusive(v, depth + 1) for v in node)
+        return False
+
+    if not has_numeric_exclusive(schema):
+        return False
+    try:
+        root = dict(gd.root_for(plan))
+        return not jsonschema.Draft4Validator({**root, **schema} if isinstance(schema, dict) else schema).is_valid(value)
+    except Exception:  # noqa: BLE001
+        return False
+
+
 def _valid_negative_signature(loc, schema, value, plan) -> str:
+    if hinges_on_draft4_reading_of_exclusive_bounds(schema, value, plan):
+        return "negative-component-valid:openapi-3.1-exclusive-bound-read-with-draft4-semantics"
     if hinges_on_pattern_with_length(schema, value, plan):
         return "negative-component-valid:hinges-on-pattern+length-subschema"
     return f"negative-component-valid:{loc}:raw"
@@ -357,9 +471,10 @@ def spells_json_literal(value) -> bool:
 
 
 SUBS = [
+    Sub("explicit", fn=check_negative, strategy=explicit_plan, quick=(16, 25), thorough=(16, 1500), shrink_quick=False, timeout_quick=600, timeout_thorough=3400),
     Sub("negative", fn=check_negative, strategy=plan_and_modes, quick=(16, 25), thorough=(16, 1500), shrink_quick=False, timeout_quick=600, timeout_thorough=3400),
 ]
-FLOOR = {"negative": 2000}
+FLOOR = {"negative": 2000, "explicit": 2000}
 
 MANIFEST = {
     "category": "exploration",
